@@ -539,7 +539,7 @@ Section Inv.
     match a with AWrite _ | ARead => False | _ => True end.
   Definition nowait (x : thread) : Prop := forall n, t_pc x <> PWait n.
   Definition quiet (e : event) : Prop :=
-    match e with EAcq _ | ERel _ | ESwap | EStart _ => True | _ => False end.
+    match e with EAcq _ | ERel _ | ESwap | EStart _ _ => True | _ => False end.
 
   (** the five kinds of micro-steps, as far as bodies and queries are concerned *)
   Inductive nclass (r : option (nat * nat)) (x : thread) (a : action) (x' : thread)
